@@ -189,6 +189,43 @@ fn c19_from_str_ascii40() {
     core::mem::forget(r);
 }
 
+/// K-bounded quick-tier stand-in for `c19_from_str_ascii40` (which needs ~9 min / 12 GB): 38 fixed
+/// hex digits and one pair of fully symbolic ASCII bytes at pair position `p` (first, middle, last).
+fn from_str_one_symbolic_pair(p: usize) {
+    let mut b = [b'7'; 40];
+    let hi: u8 = kani::any();
+    let lo: u8 = kani::any();
+    kani::assume(hi < 128 && lo < 128);
+    b[2 * p] = hi;
+    b[2 * p + 1] = lo;
+    let s = unsafe { core::str::from_utf8_unchecked(&b) };
+    let r = Id::from_str(s);
+    let ok = spec::hex_val(hi) != 255 && spec::hex_val(lo) != 255;
+    assert!(r.is_ok() == ok);
+    if let Ok(id) = &r {
+        assert!(id.as_bytes()[p] == spec::hex_val(hi) * 16 + spec::hex_val(lo));
+        let j: usize = kani::any();
+        kani::assume(j < 20 && j != p);
+        assert!(id.as_bytes()[j] == 0x77);
+    }
+    kani::cover!(r.is_ok() && hi == b'F');
+    kani::cover!(r.is_err() && hi == b'+');
+    kani::cover!(r.is_err() && lo == b'g');
+    core::mem::forget(r);
+}
+
+#[kani::proof]
+#[kani::unwind(42)]
+fn c19_from_str_ascii40_symbolic_pair_first() {
+    from_str_one_symbolic_pair(0)
+}
+
+#[kani::proof]
+#[kani::unwind(42)]
+fn c19_from_str_ascii40_symbolic_pair_last() {
+    from_str_one_symbolic_pair(19)
+}
+
 /// K-bounded (byte length <= 6, all valid UTF-8 including multi-byte scalars and signs):
 /// never panics and is never Ok (40 hex digits are required).
 #[kani::proof]
